@@ -21,6 +21,7 @@ PARTIAL: that an edge mesh is a closed cylinder running from start to end is geo
 import ScadVerif.Lemmas.PtReal
 import ScadVerif.Model.Viewer
 import ScadVerif.Props.C04
+import ScadVerif.Props.C09
 set_option linter.unusedSectionVars false
 namespace ScadVerif.C18
 open ScadVerif ScadVerif.Viewer ScadVerif.Parts
@@ -274,5 +275,76 @@ theorem edgeMesh_closed (st : State ℝ) (hr : 0 < st.edgeRadius) (a b : Pt3 ℝ
     intro f hf
     have := hv f hf
     simpa [Dim3.Polyhedron.translate, Dim3.Polyhedron.applyMatrix, Pt3s.translate, Mt4.applyMatrix] using this
+
+/-! ### where an edge cylinder is put -/
+/-- `look_at_matrix_lh` has no translation part in the slots `apply_matrix` reads -/
+theorem lookAt_w (eye center up : Pt3 ℝ) :
+    (Mt4.lookAtLh eye center up).w.x = 0 ∧ (Mt4.lookAtLh eye center up).w.y = 0 ∧
+      (Mt4.lookAtLh eye center up).w.z = 0 := by
+  unfold Mt4.lookAtLh
+  simp only []
+  split
+  · split <;> simp [Mt4.rotXMatrix, Mt4.rotXCS, Mt4.identity, Mt4.transposed]
+  · simp
+
+/-- where a point of the un-placed edge cylinder ends up -/
+noncomputable def placed (start end_ : Pt3 ℝ) (p : Pt3 ℝ) : Pt3 ℝ :=
+  Pt3.add (Mt4.mulPt3 (Mt4.lookAtLh start end_ ⟨0, 0, 1⟩) p) start
+
+theorem edgeMesh_points (st : State ℝ) (a b : Pt3 ℝ) (s : Scad ℝ) (h : edgeMesh st a b = some s) :
+    ∃ c, Dim3.Polyhedron.cylinder st.edgeRadius (Pt3.sub b a).len st.segments = some c ∧
+      s = Scad.node (.polyhedron (c.points.map (placed a b)) c.faces 1) [] := by
+  unfold edgeMesh at h
+  simp only [Option.bind_eq_bind, Option.pure_def] at h
+  obtain ⟨c, hc, h⟩ := bind_some h
+  injection h with h; subst h
+  refine ⟨c, hc, ?_⟩
+  obtain ⟨w1, w2, w3⟩ := lookAt_w a b ⟨0, 0, 1⟩
+  have hpts : ((c.applyMatrix (Mt4.lookAtLh a b ⟨0, 0, 1⟩)).translate a).points = c.points.map (placed a b) := by
+    simp only [Dim3.Polyhedron.translate, Dim3.Polyhedron.applyMatrix, C09.applyMatrix_affine, Pt3s.translate,
+      List.map_map, w1, w2, w3]
+    apply List.map_congr_left
+    intro p _
+    simp only [Function.comp, placed]
+    show Pt3.add (Pt3.add (Mt4.mulPt3 _ p) ⟨0, 0, 0⟩) a = _
+    simp [Pt3.add]
+  rw [hpts]; rfl
+
+/-- the axis of the placed cylinder, given that the frame maps +Z to the unit vector towards the end -/
+theorem axis_of_frame (start end_ : Pt3 ℝ) (hne : Pt3.sub end_ start ≠ ⟨0, 0, 0⟩)
+    (hz : Mt4.mulPt3 (Mt4.lookAtLh start end_ ⟨0, 0, 1⟩) ⟨0, 0, 1⟩ = Pt3.normalized (Pt3.sub end_ start)) :
+    placed start end_ ⟨0, 0, 0⟩ = start ∧ placed start end_ ⟨0, 0, (Pt3.sub end_ start).len⟩ = end_ := by
+  have hcol : ∀ z : ℝ, Mt4.mulPt3 (Mt4.lookAtLh start end_ ⟨0, 0, 1⟩) ⟨0, 0, z⟩ =
+      Pt3.smul (Pt3.normalized (Pt3.sub end_ start)) z := by
+    intro z
+    rw [C10.mulPt3_columns, ← hz, C10.mulPt3_columns]
+    ext <;> simp [Pt3.add, Pt3.smul]
+  have hlen : 0 < (Pt3.sub end_ start).len := Pt3.len_pos hne
+  constructor
+  · simp only [placed, hcol]
+    ext <;> simp [Pt3.add, Pt3.smul]
+  · simp only [placed, hcol, Pt3.normalized_comp]
+    have hL : (Pt3.sub end_ start).len ≠ 0 := ne_of_gt hlen
+    ext <;> simp only [Pt3.add, Pt3.smul] <;> rw [div_mul_cancel₀ _ hL] <;> simp [Pt3.sub]
+
+/-- **the edge cylinder runs from the start to the end of the edge**: the cylinder's axis point at
+height `z` is placed at `start + z·f`, `f` the unit vector towards the end point, so the bottom
+centre sits at the start and the top centre, at height `|end − start|`, at the end — for edges in
+every direction that is not vertical … -/
+theorem edge_axis (start end_ : Pt3 ℝ) (hne : Pt3.sub end_ start ≠ ⟨0, 0, 0⟩)
+    (hup : Pt3.cross ⟨0, 0, 1⟩ (Pt3.normalized (Pt3.sub end_ start)) ≠ ⟨0, 0, 0⟩) :
+    placed start end_ ⟨0, 0, 0⟩ = start ∧ placed start end_ ⟨0, 0, (Pt3.sub end_ start).len⟩ = end_ :=
+  axis_of_frame start end_ hne (C10.lookAt_rotation start end_ ⟨0, 0, 1⟩ hne hup).2.1
+
+/-- … and for vertical edges, upwards or downwards -/
+theorem edge_axis_vertical (start end_ : Pt3 ℝ) (hx : end_.x = start.x) (hy : end_.y = start.y)
+    (hz : end_.z ≠ start.z) :
+    placed start end_ ⟨0, 0, 0⟩ = start ∧ placed start end_ ⟨0, 0, (Pt3.sub end_ start).len⟩ = end_ := by
+  apply axis_of_frame start end_ _ (C10.lookAt_vertical start end_ hx hy hz).2
+  intro h
+  have := congrArg Pt3.z h
+  simp only [Pt3.sub] at this
+  exact hz (by linarith)
+
 
 end ScadVerif.C18
